@@ -384,3 +384,6 @@ Definition preceded_blocked (g : group) : bool :=
       (ts a0 <=? ts b0) && existsb (fun a => existsb (fun b => ts b <? ts a) (g_b g)) (g_a g)
   | _, _ => false
   end.
+
+(** the class only exists while the final [else] branch of [match_preceded_by] advances the b pointer *)
+Definition preceded_known (g : group) : bool := negb seq_pb_else_advances_a && preceded_blocked g.
